@@ -30,6 +30,11 @@ def matches(match, sig):
     return True
 
 
+def _printable(s):
+    s = str(s)
+    return ''.join(ch if (ch.isprintable() or ch in '\n\t') else repr(ch)[1:-1] for ch in s)
+
+
 def _jsonable(x, depth=0):
     if depth > 6:
         return repr(x)[:200]
@@ -102,7 +107,7 @@ def finish(mod, pid, tier, seed, phases, results, wall, write_evidence=True):
         print('   signature=%s count=%d' % (json.dumps(_jsonable(ent['signature']), sort_keys=True), ent['count']))
         det = ent['detail']
         for k in list(det)[:8]:
-            print('   %s: %s' % (k, str(det[k])[:600]))
+            print('   %s: %s' % (k, _printable(str(det[k])[:600])))
     if len(violations) > 25:
         print('   ... and %d more violation classes' % (len(violations) - 25))
 
@@ -170,7 +175,7 @@ def do_replay(mod, pid, path):
             print('VIOLATION property=%s replay=%s' % (pid, path))
         print('   signature=%s' % json.dumps(_jsonable(sig), sort_keys=True))
         for k, v in detail.items():
-            print('   %s: %s' % (k, str(v)[:1500]))
+            print('   %s: %s' % (k, _printable(str(v)[:1500])))
     if not ctx.fails:
         print('replay: no failure reproduced')
     return 1 if bad else 0
